@@ -32,6 +32,7 @@ import (
 	stakingtypes "github.com/cosmos/cosmos-sdk/x/staking/types"
 
 	chain "github.com/comdex-official/comdex/app"
+	markettypes "github.com/comdex-official/comdex/x/market/types"
 )
 
 var (
@@ -112,6 +113,7 @@ type Chain struct {
 	Txs       int64
 	// LastPanicStack holds the goroutine stack of the last Begin/EndBlock panic.
 	LastPanicStack string
+	lastBegin time.Time
 	// Tape, when non-nil, records the stream of transactions / block boundaries / environment actions (C16, C20).
 	Tape *Tape
 }
@@ -245,6 +247,10 @@ func (c *Chain) begin() {
 		}
 	}()
 	c.App.BeginBlock(abci.RequestBeginBlock{Header: c.Header})
+	if c.Tape != nil {
+		c.Tape.Recs = append(c.Tape.Recs, TapeRec{Kind: "block", Dt: int64(c.Header.Time.Sub(c.lastBegin)), AppHash: fmt.Sprintf("%x", c.App.LastCommitID().Hash), Height: c.Header.Height})
+	}
+	c.lastBegin = c.Header.Time
 }
 
 // Begin opens the block described by c.Header (used after FromGenesis).
@@ -262,9 +268,6 @@ func (c *Chain) NextBlock(dt time.Duration) {
 	c.EndAndCommit()
 	c.Header.Time = c.Header.Time.Add(dt)
 	c.begin()
-	if c.Tape != nil {
-		c.Tape.Recs = append(c.Tape.Recs, TapeRec{Kind: "block", Dt: int64(dt), AppHash: fmt.Sprintf("%x", c.App.LastCommitID().Hash), Height: c.Header.Height})
-	}
 }
 
 // EndAndCommit ends the current block, commits, and prepares (but does not begin) the next header.
@@ -337,4 +340,41 @@ func (c *Chain) Supply(denom string) sdkmath.Int {
 func (c *Chain) Close() {
 	_ = c.DB.Close()
 	_ = os.RemoveAll(c.Home)
+}
+
+// SetTwa writes a published price record directly (the harness's "direct price
+// feeder") and records the action on the tape.
+func (c *Chain) SetTwa(t markettypes.TimeWeightedAverage) {
+	if c.Tape != nil {
+		bz, _ := json.Marshal(t)
+		c.Tape.Recs = append(c.Tape.Recs, TapeRec{Kind: "env", Env: "twa", Args: []string{string(bz)}})
+	}
+	c.App.MarketKeeper.SetTwa(c.Ctx(), t)
+}
+
+// ApplyEnv re-applies a recorded environment action.
+func (c *Chain) ApplyEnv(r TapeRec) {
+	switch r.Env {
+	case "twa":
+		var t markettypes.TimeWeightedAverage
+		if err := json.Unmarshal([]byte(r.Args[0]), &t); err != nil {
+			panic(err)
+		}
+		c.App.MarketKeeper.SetTwa(c.Ctx(), t)
+	default:
+		panic("unknown env record " + r.Env)
+	}
+}
+
+// ReplayRec applies one tape record; for tx records it returns the result.
+func (c *Chain) ReplayRec(r TapeRec) (TxResult, bool) {
+	switch r.Kind {
+	case "tx":
+		return c.DeliverRaw(r.Tx), true
+	case "block":
+		c.NextBlock(time.Duration(r.Dt))
+	case "env":
+		c.ApplyEnv(r)
+	}
+	return TxResult{}, false
 }
